@@ -870,6 +870,15 @@ def norm_index(I, ctx, i, n):
 def getitem(I, ctx, o, k):
     from .interp import hkey
     from . import nparr
+    if isinstance(o, nparr.RecArr):
+        ks = enum_str(k)
+        if isinstance(ks, str):
+            if ks not in o.fields:
+                raise I.raise_exc("ValueError")
+            return o.fields[ks]
+        if isinstance(k, Opaque):
+            return Opaque(None, "field-of-a-symbolic-name", {"scalar": True})
+        raise Unsupported(f"structured array indexed by {k!r}")
     if isinstance(o, nparr.NArr2):
         return nparr.narr2_getitem(I, ctx, o, k)
     if isinstance(o, nparr.NArr):
@@ -1134,6 +1143,11 @@ def getattr_(I, ctx, o, name, default=_MISSING):
         if r is not None:
             return r
         raise Unsupported(f"ndarray.{name} is not modelled at {ctx.where}")
+    if isinstance(o, nparr.RecArr):
+        r = nparr.recarr_getattr(I, ctx, o, name)
+        if r is not None:
+            return r
+        raise ExcVal(I.exc_classes["AttributeError"], (name,))
     if isinstance(o, nparr.DType):
         if name == "name":
             return o.tag
